@@ -75,7 +75,14 @@ for h in ('_color_light', '_power_light', '_get_color', '_color_mz_light', '_col
     def _setup(b, case):
         light, impl = one_light(b, 'plain', fail=False)
         m = machine_with(b, {'L': light}, groups={'G': ['L']})
-        m.attrs['_reg'].attrs['name'] = 'nobody'
+        # ANY text nobody is known under (a name is data: it may contain braces, quotes, blanks)
+        nm = b.sym('str', 'unknown_name')
+        if hasattr(nm, 't'):
+            b.assume(nm.t != 'L')
+            b.assume(nm.t != 'G')
+        elif nm in ('L', 'G'):
+            nm = 'nobody ' + nm
+        m.attrs['_reg'].attrs['name'] = nm
         m.attrs['_reg'].attrs['first_zone'] = 0
         m.attrs['_reg'].attrs['matrix'] = lib.color_matrix(b, 1, 1, [None])
         return {'self': m}
